@@ -127,7 +127,7 @@ def precision_jobs(ctx):
                     # the engine starts at a grid time t0 > 0: the first
                     # step may be longer than t0 itself (t + (f - t) != f
                     # in floating point when f > 2t)
-                    for t0 in ('0.3', '0.1'):
+                    for t0 in ('0.3', '0.1', '-1', '-0.4'):
                         jobs.append(('P', prec, combo, sc, 1, 't0:' + t0))
     return jobs
 
@@ -328,3 +328,6 @@ def replay(case):
 
 RULE += (
     " Precision worlds also with a top-level emitted variable NAMED 'time' that accumulates the timesteps in floating point: rows stay stamped with the engine's clock. K1 is recognised only when the lagging process was asked again in the very next scheduler pass.")
+
+RULE += (
+    ' Precision worlds also start at the negative grid times -1 and -0.4.')
